@@ -220,12 +220,31 @@ async def run(ctx) -> None:
     if k("ambient", False):
         amb = loop.create_task(ambient(hub, cfg, k("ambient_period", 240.0), k("neighbour", False),
                                        lambda n: hub.count("ambient_device_frames", n)))
+    n_snap = [0]
+
+    async def restore(pk: dict, secs: float) -> None:
+        # the application puts a saved state back while discovery is running (the engine is paused meanwhile, on a slow host for
+        # seconds: polls that fall due then are refused -- and must simply be tried again later)
+        loop.iter_cost = secs / max(60, 3 * len(pk))
+        try:
+            await gwy._restore_cached_packets(dict(pk))
+            hub.count("restore_during_discovery")
+        except Exception as err:  # noqa
+            ctx.violate("C12", "restore_raised", exc_sig(err), f"restoring a snapshot during discovery raised {type(err).__name__}: {err}")
+        finally:
+            loop.iter_cost = 0.0
+
     def snapshot():
         try:
-            gwy.get_state()
+            st = gwy.get_state()
             hub.count("snapshot_during_discovery")
         except Exception as err:  # noqa
             ctx.violate("C12", "snapshot_raised", exc_sig(err), f"get_state() during discovery raised {type(err).__name__}: {err}")
+            return
+        n_snap[0] += 1
+        d = plan.decide(f"restore_after_snapshot/{n_snap[0]}", lambda rr: ["yes", rr.choice([2.0, 8.0, 30.0])] if rr.random() < 0.5 else ["no"], ["no"])
+        if d[0] == "yes" and st[1]:
+            loop.create_task(restore(st[1], d[1]))
 
     for ts in k("snapshots", []):
         loop.call_at(t0 + ts, snapshot)
